@@ -19,7 +19,9 @@ where
 {
     fn write_xml(&self, writer: &mut W) -> WriterResult<()> {
         for (operation_name, operation) in &self.operations {
-            writeln!(writer, "\n/* {operation_name} */\n")?;
+            // the name is schema text: it must neither end this comment nor open a nested one
+            let comment = operation_name.replace("*/", "* /").replace("/*", "/ *");
+            writeln!(writer, "\n/* {comment} */\n")?;
 
             // input
             let operation_name = to_pascal_case(operation_name);
